@@ -196,7 +196,7 @@ theorem same_id_shrunk_restarts (od nd : Desc) (h : nd.lastSeenSize < od.lastSee
   have : ¬ (od.lastSeenSize ≤ nd.lastSeenSize ∧ od.offset ≤ nd.lastSeenSize) := by omega
   simp [mergeOne, this]
 
-/-- **`cex_stale_size_resend`** (finding F41) `sync` reads the file size (`scanPaths`) *before* `mergeDescs` reads the
+/-- **`cex_stale_size_resend`** (finding F17b) `sync` reads the file size (`scanPaths`) *before* `mergeDescs` reads the
 worker's live offset. A file that only grows — 17 bytes at the stat, 31 bytes shipped and confirmed by the time
 of the merge — violates `od.offset ≤ nd.lastSeenSize`, the scanned descriptor (offset 0) replaces the old one and
 the file is sent again from its beginning. `same_id_grown_keeps_offset` is the partial statement (its hypothesis
